@@ -46,13 +46,12 @@ CFG = {
              "MultiOps (own / ref / Result with injected errors) over 0-12 operands; non-trivial = some value with >= 2 partitions"),
     "targets": _T,
     "gaps": [
-        "proved without hypotheses: Result forms of the multi-ops (all Ok -> Ok of the plain multi-op; otherwise the first error, for all four operators), the empty sequence, which operand forms share code (C11_forms). NOT yet proved: the lifting of the four binary operations (6 forms), is_subset/is_superset/is_disjoint, the four *_len and the heap-based / ordered multi-op folds to the Spec set operations on u64 - these are decided by the correspondence check (MODEL = SPEC column on every generated case) only",
-        "the 32-bit binary operations, relations, intersection_len and 32-bit MultiOps are a parameter (Ops32) of the treemap model, to be instantiated by the algebra / multi families (C02, C08, C09) at merge; until then the driver instantiates Ops32 with stand-ins built from the Spec set operations (clearly marked in Driver/TreemapAlg.lean), so the correspondence exercises the partition-level logic of ops.rs / cmp.rs / multiops.rs, not the 32-bit kernels",
-        "BinaryHeap is modelled as 'extract an entry with minimal key'; the executable model picks the first minimal entry; mergeLoop is fuelled by the number of partitions (never exhausted early - not yet proved)",
+        "proved unconditionally for the executable model (Ops32.model = the mirrored 32-bit operations in exactly the forms ops.rs / cmp.rs / multiops.rs call them; hypothesis TWF on the operands): all 4 operators x 6 operand forms (C11_all_forms: result well-formed incl. removal of emptied partitions, elems = Spec set operation), is_subset / is_superset / is_disjoint, intersection_len, difference_len (the plain - never underflows), union_len and symmetric_difference_len = the cardinality mod 2^64 (exact unless the result is all 2^64 values: then the Rust wraps to 0 as well), MultiOps owned / borrowed = the fold (C11_multi) for EVERY min-extraction of the heap (C11_multi_any_heap) with fuel never exhausted early (C11_multi_fuel), Result forms (all Ok -> Ok of the fold; otherwise the first error). The 32-bit laws used are BinLaws (from C02/C08) and MultiLaws (C09 + well-formedness of the 32-bit multi-op results, Lemmas/TreemapMultiLaws.lean); the *_partial forms hold for every Ops32 satisfying them",
+        "BinaryHeap is modelled as 'extract an entry with minimal key' (IsExtractMin: any minimal entry, the others in any order); the executable model picks the first minimal entry",
     ],
     "assumptions": [
         "treemap algebra correspondence bounds: <= 5 partitions (keys 0,1,3,4,u32::MAX), operands <= ~10^5 elements, multi-op sequences <= 14 items",
     ],
-    "level_text": "Theorems (Lean 4, kernel-checked) that the model of the treemap binary operations in every operand/assign form, the relations, the *_len cardinalities and the MultiOps folds (heap-based k-way merge, ordered fold, Result forms) equal the set operations on strictly ascending lists of u64, given 32-bit operations that satisfy their specifications; the partition-level code (operand swaps, Entry flows, removal of emptied partitions, Pairs, heap merge with grouping) is mirrored and tied to the Rust source by running both on generated operand sequences in two build profiles.",
-    "level_note": "Trusted: Lean kernel; the hand-written model mirrors treemap/ops.rs, cmp.rs, multiops.rs at the partition level (checked by correspondence only); the 32-bit operations are a model parameter (stand-ins derived from Spec until the algebra/multi families are merged), so the correspondence exercises the partition-level logic, not the 32-bit kernels; BTreeMap/BinaryHeap modelled by their contracts.",
+    "level_text": "Theorems (Lean 4, kernel-checked, unconditional) that the model of the treemap binary operations in every operand/assign form, the relations, the *_len cardinalities and the MultiOps folds (heap-based k-way merge for an arbitrary min-extraction, ordered fold, Result forms) equal the set operations on strictly ascending lists of u64, for all well-formed operands, over the mirrored 32-bit operations (C02/C08/C09); the partition-level code (operand swaps, Entry flows, removal of emptied partitions, Pairs, heap merge with grouping) is mirrored and tied to the Rust source by running both on generated operand sequences in two build profiles.",
+    "level_note": "Trusted: Lean kernel; the hand-written model mirrors treemap/ops.rs, cmp.rs, multiops.rs at the partition level and calls the mirrored 32-bit operations (Ops32.model) in the same forms as the Rust (checked by correspondence only); BTreeMap/BinaryHeap modelled by their contracts; union_len / symmetric_difference_len are exact modulo 2^64.",
 }
